@@ -153,6 +153,60 @@ theorem fromCtyMap_tie (S : Sched) (ms : List String) (ety : Ty) (p : Payload) (
       | float is32 => cases is32 <;> shape_simp [hm, fromCtyMap]
       | _ => shape_simp [hm, fromCtyMap, mapIntoMap]
 
+/-! ### marks pushed down to a member -/
+
+theorem insertMark_ne_nil (m : String) : ∀ l : List String, insertMark m l ≠ []
+  | [] => by simp [insertMark]
+  | x :: xs => by
+    simp only [insertMark]
+    split
+    · simp
+    · split <;> simp
+
+theorem unionMarks_isEmpty (a b : List String) (hb : b.isEmpty = false) : (unionMarks a b).isEmpty = false := by
+  unfold unionMarks
+  induction a with
+  | nil => simpa using hb
+  | cons x xs ih =>
+    simp only [List.foldr_cons]
+    cases h : insertMark x (List.foldr insertMark b xs) with
+    | nil => exact absurd h (insertMark_ne_nil _ _)
+    | cons _ _ => rfl
+
+theorem fromCtyP_of_cval (S : Sched) (ms : List String) (ty : Ty) (p : Payload) (T : GoTy) (hc : T.base.isCval = true) :
+    fromCtyP S ms ty p T = .ok (wrapPtr T.depth (.cval ⟨ty, pushMarks ms p⟩)) := by
+  unfold fromCtyP; simp [hc]
+
+theorem fromCtyP_marked (S : Sched) (ms m : List String) (ty : Ty) (r : Payload) (T : GoTy) (hc : T.base.isCval = false) :
+    fromCtyP S ms ty (.marked m r) T = fromCtyP S (mergeMarks m ms) ty r T := by
+  conv => lhs; unfold fromCtyP
+  simp [hc]
+
+/-- a member taken out of a marked container (`GetAttr` / `Index` merge the container's marks in) is decoded as the
+model decodes the bare member with those marks still to be merged -/
+theorem fromCtyP_pushMarks (S : Sched) (ms : List String) (ety : Ty) (c : Payload) (T : GoTy) :
+    fromCtyP S [] ety (pushMarks ms c) T = fromCtyP S ms ety c T := by
+  by_cases hm : ms.isEmpty = true
+  · have : ms = [] := List.isEmpty_iff.mp hm
+    subst this; rfl
+  · have hm' : ms.isEmpty = false := by simpa using hm
+    have hpp : ∀ q : Payload, pushMarks [] q = q := fun _ => rfl
+    by_cases hc : T.base.isCval = true
+    · rw [fromCtyP_of_cval S [] ety _ T hc, fromCtyP_of_cval S ms ety c T hc, hpp]
+    · have hc' : T.base.isCval = false := by simpa using hc
+      cases c with
+      | marked m r =>
+        have hall := unionMarks_isEmpty m ms hm'
+        have hp : pushMarks ms (.marked m r) = .marked (unionMarks m ms) r := by
+          simp [pushMarks, hm', Payload.withMarks, Payload.marks1, Payload.unmark1, hall]
+        rw [hp, fromCtyP_marked S [] _ ety r T hc', fromCtyP_marked S ms m ety r T hc']
+        simp [mergeMarks, hm']
+      | _ =>
+        simp only [pushMarks, hm', Payload.withMarks, Payload.marks1, Payload.unmark1, unionMarks, List.foldr_nil, Bool.false_eq_true, if_false]
+        rw [fromCtyP_marked S [] ms ety _ T hc']
+        simp [mergeMarks]
+
+
 /-! ### the positional loop of `fromCtyTuple` -/
 
 theorem seqAll_cons_ok {α} (a : α) (rs : List (Res α)) :
@@ -165,13 +219,13 @@ theorem mapRes_mapRes {α β γ} (f : β → γ) (g : α → β) (r : Res α) : 
 /-- a loop `for i := range xs` whose body decodes the `i`-th member into the `i`-th field of the struct the target
 holds is the model's position-wise decoding of the remaining members (`fromCtyZ`): the first failure ends it -/
 theorem forRange_fields (S : Sched) (tags : List String) (etys : List Ty) (cs : List Payload) (tys : List GoTy)
-    (body : Int → GoVal → Res GoVal) (hcs : cs.length = etys.length) (hty : tys.length = etys.length)
+    (body : Int → GoVal → Res GoVal) (ms : List String) (hcs : cs.length = etys.length) (hty : tys.length = etys.length)
     (hbody : ∀ (k : Nat) (hk : k < etys.length) (gs : List GoVal), gs.length = etys.length →
       body (k : Int) (.struct tags gs) =
-        mapRes (fun g => GoVal.struct tags (gs.set k g)) (fromCtyP S [] etys[k] (cs[k]'(by omega)) (tys[k]'(by omega)))) :
+        mapRes (fun g => GoVal.struct tags (gs.set k g)) (fromCtyP S ms etys[k] (cs[k]'(by omega)) (tys[k]'(by omega)))) :
     ∀ (n k : Nat) (done rest0 : List GoVal), k + n = etys.length → done.length = k → rest0.length = n →
       forRangeFrom body k n (.struct tags (done ++ rest0)) =
-        mapRes (fun rest => GoVal.struct tags (done ++ rest)) (seqAll (fromCtyZ S [] (etys.drop k) (cs.drop k) (tys.drop k)))
+        mapRes (fun rest => GoVal.struct tags (done ++ rest)) (seqAll (fromCtyZ S ms (etys.drop k) (cs.drop k) (tys.drop k)))
   | 0, k, done, rest0, hk, hd, hr => by
     have h1 : etys.drop k = [] := List.drop_eq_nil_of_le (by omega)
     have h2 : rest0 = [] := List.eq_nil_of_length_eq_zero hr
@@ -191,17 +245,17 @@ theorem forRange_fields (S : Sched) (tags : List String) (etys : List Ty) (cs : 
       have e1 : etys.drop k = etys[k] :: etys.drop (k + 1) := List.drop_eq_getElem_cons hk'
       have e2 : cs.drop k = cs[k]'(by omega) :: cs.drop (k + 1) := List.drop_eq_getElem_cons (by omega)
       have e3 : tys.drop k = tys[k]'(by omega) :: tys.drop (k + 1) := List.drop_eq_getElem_cons (by omega)
-      have ih := forRange_fields S tags etys cs tys body hcs hty hbody n (k + 1) (done ++ [r]) rest1 (by omega) (by simp [hd])
+      have ih := forRange_fields S tags etys cs tys body ms hcs hty hbody n (k + 1) (done ++ [r]) rest1 (by omega) (by simp [hd])
         (by simpa using hr)
       rw [e1, e2, e3]
       simp only [fromCtyZ, forRangeFrom, hb]
-      cases hP : fromCtyP S [] etys[k] (cs[k]'(by omega)) (tys[k]'(by omega)) with
+      cases hP : fromCtyP S ms etys[k] (cs[k]'(by omega)) (tys[k]'(by omega)) with
       | ok g =>
-        have ih' := forRange_fields S tags etys cs tys body hcs hty hbody n (k + 1) (done ++ [g]) rest1 (by omega) (by simp [hd])
+        have ih' := forRange_fields S tags etys cs tys body ms hcs hty hbody n (k + 1) (done ++ [g]) rest1 (by omega) (by simp [hd])
           (by simpa using hr)
         simp only [mapRes, hset]
         rw [ih', seqAll_cons_ok]
-        generalize seqAll (fromCtyZ S [] (List.drop (k + 1) etys) (List.drop (k + 1) cs) (List.drop (k + 1) tys)) = R
+        generalize seqAll (fromCtyZ S ms (List.drop (k + 1) etys) (List.drop (k + 1) cs) (List.drop (k + 1) tys)) = R
         cases R <;> simp [mapRes]
       | err c => simp [mapRes, seqAll]
       | panic w => simp [mapRes, seqAll]
@@ -213,12 +267,12 @@ theorem zeroValL_len : ∀ tys : List GoTy, (zeroValL tys).length = tys.length
 
 /-- the whole loop, started on the zero struct -/
 theorem forRange_struct (S : Sched) (tags : List String) (etys : List Ty) (cs : List Payload) (tys : List GoTy)
-    (body : Int → GoVal → Res GoVal) (hcs : cs.length = etys.length) (hty : tys.length = etys.length)
+    (body : Int → GoVal → Res GoVal) (ms : List String) (hcs : cs.length = etys.length) (hty : tys.length = etys.length)
     (hbody : ∀ (k : Nat) (hk : k < etys.length) (gs : List GoVal), gs.length = etys.length →
       body (k : Int) (.struct tags gs) =
-        mapRes (fun g => GoVal.struct tags (gs.set k g)) (fromCtyP S [] etys[k] (cs[k]'(by omega)) (tys[k]'(by omega)))) :
-    forRange etys.length body (.struct tags (zeroValL tys)) = mapRes (GoVal.struct tags) (seqAll (fromCtyZ S [] etys cs tys)) := by
-  have := forRange_fields S tags etys cs tys body hcs hty hbody etys.length 0 [] (zeroValL tys) (by omega) rfl
+        mapRes (fun g => GoVal.struct tags (gs.set k g)) (fromCtyP S ms etys[k] (cs[k]'(by omega)) (tys[k]'(by omega)))) :
+    forRange etys.length body (.struct tags (zeroValL tys)) = mapRes (GoVal.struct tags) (seqAll (fromCtyZ S ms etys cs tys)) := by
+  have := forRange_fields S tags etys cs tys body ms hcs hty hbody etys.length 0 [] (zeroValL tys) (by omega) rfl
     (by rw [zeroValL_len, hty])
   simpa [forRange] using this
 
@@ -245,7 +299,7 @@ theorem fromCtyTuple_tie (S : Sched) (etys : List Ty) (cs : List Payload) (T : G
       unfold fromCtyTuple
       simp only [kindOf, decide_true, if_true, tupleElementTypes, numField, rbind_ok, hl', Bool.not_true, Bool.false_eq_true,
         if_false, zeroVal]
-      rw [forRange_struct S tags etys cs tys _ hwf hl]
+      rw [forRange_struct S tags etys cs tys _ [] hwf hl]
       · simp only [hl, ne_eq, not_true_eq_false, if_false, mapRes_comp_wrap0]
         cases seqAll (fromCtyZ S [] etys cs tys) <;> rfl
       · intro k hk gs hgs
@@ -556,6 +610,200 @@ theorem fromCtyValue_tie_guards (S : Sched) (rec : Rec) (ord : List String → L
     rw [fromCtyValue_unknown rec ord _ T tv hc hunk]
     unfold fromCtyP
     simp [hc]
+
+/-! ### marked tuples and objects: the marks are pushed down to the members -/
+
+theorem tupleVal_facts (ms : List String) (etys : List Ty) (cs : List Payload) :
+    (⟨.tuple etys, pushMarks ms (.seq cs)⟩ : Value).isKnown = true ∧
+    (pushMarks ms (.seq cs)).unmark1 = .seq cs ∧
+    (∀ c, pushMarks (pushMarks ms (.seq cs)).marks1 c = pushMarks ms c) := by
+  rw [pushMarks_seq]
+  by_cases hm : ms.isEmpty = true
+  · have : ms = [] := List.isEmpty_iff.mp hm
+    subst this
+    exact ⟨rfl, rfl, fun _ => rfl⟩
+  · simp only [hm, if_false]
+    exact ⟨rfl, rfl, fun _ => rfl⟩
+
+/-- `fromCtyTuple_tie` for a tuple carrying the marks `ms` (pushed down from its containers or its own): `val.Index(i)`
+merges them into every member, as the model's `fromCtyZ S ms` does -/
+theorem fromCtyTuple_tie_marked (S : Sched) (ms : List String) (etys : List Ty) (cs : List Payload) (T : GoTy)
+    (hd : T.depth = 0) (hc : T.isCval = false) (hwf : cs.length = etys.length) :
+    er (fromCtyTuple (recS S) ⟨.tuple etys, pushMarks ms (.seq cs)⟩ T (zeroVal T)) =
+      er (fromCtyP S ms (.tuple etys) (.seq cs) T) := by
+  have hb := base_of_depth0 hd
+  obtain ⟨f1, f2, f3⟩ := tupleVal_facts ms etys cs
+  unfold fromCtyP
+  simp only [hb, hc, hd, Bool.false_eq_true, if_false]
+  cases T with
+  | int w s => cases w <;> cases s <;> shape_simp [fromCtyTuple]
+  | float is32 => cases is32 <;> shape_simp [fromCtyTuple]
+  | struct tags tys =>
+    by_cases hl : tys.length = etys.length
+    · have hl' : ((tys.length : Int) = (etys.length : Int)) := by rw [hl]
+      unfold fromCtyTuple
+      simp only [kindOf, decide_true, if_true, tupleElementTypes, numField, rbind_ok, hl', Bool.not_true, Bool.false_eq_true,
+        if_false, zeroVal]
+      rw [forRange_struct S tags etys cs tys _ ms hwf hl]
+      · simp only [hl, ne_eq, not_true_eq_false, if_false, mapRes_comp_wrap0]
+        cases seqAll (fromCtyZ S ms etys cs tys) <;> rfl
+      · intro k hk gs hgs
+        have h1 : etys[k]? = some etys[k] := List.getElem?_eq_getElem hk
+        have h2 : cs[k]? = some (cs[k]'(by omega)) := List.getElem?_eq_getElem (by omega)
+        have h3 : tys[k]? = some (tys[k]'(by omega)) := List.getElem?_eq_getElem (by omega)
+        have h4 : ¬ ((k : Int) < 0) := by omega
+        have h5 : (0 : Int) ≤ (k : Int) ∧ k < tys.length := ⟨by omega, by omega⟩
+        simp only [valIndex, f1, f2, f3, Bool.not_true, Bool.false_eq_true, if_false, h4, Int.toNat_natCast, h1, h2, rbind_ok,
+          fieldCanSet, h5, and_self, if_true, intoField, h3, recS, fromCtyS, fromCtyP_pushMarks]
+        cases fromCtyP S ms etys[k] (cs[k]'(by omega)) (tys[k]'(by omega)) <;> rfl
+    · have hl' : ¬ ((tys.length : Int) = (etys.length : Int)) := fun h => hl (Int.ofNat_inj.mp h)
+      shape_simp [fromCtyTuple, tupleElementTypes, numField, hl, hl']
+  | bigInt =>
+    by_cases hl : (2 : Int) = (etys.length : Int)
+    · have hpos : 0 < etys.length := by omega
+      cases etys with
+      | nil => simp at hpos
+      | cons a as =>
+        cases cs with
+        | nil => simp at hwf
+        | cons c cs' =>
+          unfold fromCtyTuple
+          simp only [kindOf, decide_true, if_true, tupleElementTypes, numField, rbind_ok, hl, Bool.not_true, Bool.false_eq_true,
+            if_false]
+          obtain ⟨e, he⟩ := likely_err .bigInt (zeroVal .bigInt)
+          rw [forRange_first_err _ _ _ e hpos]
+          · rfl
+          · simp [valIndex, f1, f2, fieldCanSet, he]
+    · shape_simp [fromCtyTuple, tupleElementTypes, numField, hl]
+  | bigFloat =>
+    by_cases hl : (7 : Int) = (etys.length : Int)
+    · have hpos : 0 < etys.length := by omega
+      cases etys with
+      | nil => simp at hpos
+      | cons a as =>
+        cases cs with
+        | nil => simp at hwf
+        | cons c cs' =>
+          unfold fromCtyTuple
+          simp only [kindOf, decide_true, if_true, tupleElementTypes, numField, rbind_ok, hl, Bool.not_true, Bool.false_eq_true,
+            if_false]
+          obtain ⟨e, he⟩ := likely_err .bigFloat (zeroVal .bigFloat)
+          rw [forRange_first_err _ _ _ e hpos]
+          · rfl
+          · simp [valIndex, f1, f2, fieldCanSet, he]
+    · shape_simp [fromCtyTuple, tupleElementTypes, numField, hl]
+  | cval => simp [GoTy.isCval] at hc
+  | _ => shape_simp [fromCtyTuple]
+
+theorem attrDecodes_recS_marked (S : Sched) (ms : List String) : ∀ (names : List String) (atys : List Ty) (cs : List Payload)
+    (tags : List String) (tys : List GoTy), attrDecodes (recS S) ms names atys cs tags tys = fromCtyA S ms names atys cs tags tys
+  | [], _, _, _, _ => by simp [attrDecodes, fromCtyA]
+  | _ :: _, [], _, _, _ => by simp [attrDecodes, fromCtyA]
+  | _ :: _, _ :: _, [], _, _ => by simp [attrDecodes, fromCtyA]
+  | k :: names, aty :: atys, c :: cs, tags, tys => by
+    simp only [attrDecodes, fromCtyA, attrDecodes_recS_marked S ms names atys cs tags tys]
+    cases lookupTag k tags tys <;> simp [recS, fromCtyS, fromCtyP_pushMarks]
+
+theorem objectVal_facts (ms : List String) (ks : List String) (cs : List Payload) :
+    (pushMarks ms (.smap ks cs)).unmark1 = .smap ks cs ∧
+    (∀ names atys cs' tags tys, attrDecodes (recS S) (pushMarks ms (.smap ks cs)).marks1 names atys cs' tags tys =
+      attrDecodes (recS S) ms names atys cs' tags tys) := by
+  rw [pushMarks_smap]
+  by_cases hm : ms.isEmpty = true
+  · have : ms = [] := List.isEmpty_iff.mp hm
+    subst this
+    exact ⟨rfl, fun _ _ _ _ _ => rfl⟩
+  · simp only [hm, if_false]
+    exact ⟨rfl, fun _ _ _ _ _ => rfl⟩
+
+/-- `fromCtyObject_tie` for an object carrying the marks `ms`: `val.GetAttr(k)` merges them into every attribute -/
+theorem fromCtyObject_tie_marked (S : Sched) (ms : List String) (names : List String) (atys : List Ty) (opt : List Bool)
+    (cs : List Payload) (T : GoTy) (hd : T.depth = 0) (hc : T.isCval = false) :
+    er (fromCtyObject (recS S.next) (S 0) ⟨.object names atys opt, pushMarks ms (.smap names cs)⟩ T (zeroVal T)) =
+      er (fromCtyP S ms (.object names atys opt) (.smap names cs) T) := by
+  have hb := base_of_depth0 hd
+  obtain ⟨f1, f2⟩ := @objectVal_facts S.next ms names cs
+  unfold fromCtyP
+  simp only [hb, hc, hd, Bool.false_eq_true, if_false, bne_self_eq_false]
+  cases T with
+  | int w s => cases w <;> cases s <;> shape_simp [fromCtyObject]
+  | float is32 => cases is32 <;> shape_simp [fromCtyObject]
+  | struct tags tys =>
+    simp only [fromCtyObject, kindOf, decide_true, if_true, objectMissingCheck, tagView, objectIntoFields, f1, f2,
+      attrDecodes_recS_marked, bne_self_eq_false, Bool.false_eq_true, if_false]
+    split
+    · rfl
+    · simp only [rbind_ok, mapRes_comp_wrap0]
+      cases combSched (S 0 names) names (fromCtyA S.next ms names atys cs (effTags tags) tys) <;> rfl
+  | bigInt =>
+    simp only [fromCtyObject, kindOf, decide_true, if_true, objectMissingCheck, tagView, objectIntoFields, f1, missingRequired,
+      bne_self_eq_false, Bool.false_eq_true, if_false, rbind_ok]
+    split <;> rfl
+  | bigFloat =>
+    simp only [fromCtyObject, kindOf, decide_true, if_true, objectMissingCheck, tagView, objectIntoFields, f1, missingRequired,
+      bne_self_eq_false, Bool.false_eq_true, if_false, rbind_ok]
+    split <;> rfl
+  | cval => simp [GoTy.isCval] at hc
+  | _ => shape_simp [fromCtyObject]
+
+/-- a known, non-null payload (a concrete constructor) stays known and non-null under the marks pushed down to it -/
+macro "pushed_known" ms:term "," ty:term "," p:term : term =>
+  `((by rw [pushMarks_scalar $ms $p rfl rfl]; split <;> exact ⟨rfl, rfl⟩ :
+      (⟨$ty, pushMarks $ms $p⟩ : Value).isKnown = true ∧ (⟨$ty, pushMarks $ms $p⟩ : Value).isNull = false))
+
+/-- `fromCtyValue_tie` with marks: the value carries the marks `ms` (its own, or pushed down from the containers it was
+taken from).  Marked scalars, lists, sets and maps panic in the accessor the decoder calls first; marked tuples and objects
+hand the marks to their members; in every case the translated source does what the model does -/
+theorem fromCtyValue_tie_marked (S : Sched) (ms : List String) (ty : Ty) (p : Payload) (T : GoTy) (tv : GoVal)
+    (hc : T.base.isCval = false) (hk : kindOK ty p = true)
+    (hwf : ∀ etys cs, ty = .tuple etys → p = .seq cs → cs.length = etys.length) :
+    er (fromCtyValue (recFor S ty) (S 0) ⟨ty, pushMarks ms p⟩ T tv) = er (fromCtyP S ms ty p T) := by
+  have hd := base_depth T
+  have hcv : (T.base).isCval = false := hc
+  cases p with
+  | b x =>
+    cases ty <;> simp [kindOK] at hk
+    obtain ⟨k1, k2⟩ := (pushed_known ms, Ty.bool, Payload.b x)
+    rw [fromCtyValue_dispatch _ _ _ T tv hc k1 (Or.inl k2), fromCtyP_via_base S ms _ _ T hc rfl (Or.inl rfl)]
+    exact er_mapRes_congr _ (fromCtyBool_eq_fromCtyP S ms x T.base _ hd hcv)
+  | n x =>
+    cases ty <;> simp [kindOK] at hk
+    obtain ⟨k1, k2⟩ := (pushed_known ms, Ty.number, Payload.n x)
+    rw [fromCtyValue_dispatch _ _ _ T tv hc k1 (Or.inl k2), fromCtyP_via_base S ms _ _ T hc rfl (Or.inl rfl)]
+    exact er_mapRes_congr _ (fromCtyNumber_eq_fromCtyP S ms x T.base _ hd hcv)
+  | s x =>
+    cases ty <;> simp [kindOK] at hk
+    obtain ⟨k1, k2⟩ := (pushed_known ms, Ty.string, Payload.s x)
+    rw [fromCtyValue_dispatch _ _ _ T tv hc k1 (Or.inl k2), fromCtyP_via_base S ms _ _ T hc rfl (Or.inl rfl)]
+    exact er_mapRes_congr _ (fromCtyString_eq_fromCtyP S ms x T.base _ hd hcv)
+  | seq cs =>
+    cases ty <;> simp [kindOK] at hk
+    · rename_i ety
+      obtain ⟨k1, k2⟩ := (pushed_known ms, Ty.list ety, Payload.seq cs)
+      rw [fromCtyValue_dispatch _ _ _ T tv hc k1 (Or.inl k2), fromCtyP_via_base S ms _ _ T hc rfl (Or.inl rfl)]
+      exact er_mapRes_congr _ (fromCtyList_tie S ms ety (.seq cs) T.base _ hd hcv (Or.inr ⟨cs, rfl⟩))
+    · rename_i etys
+      obtain ⟨k1, k2⟩ := (pushed_known ms, Ty.tuple etys, Payload.seq cs)
+      rw [fromCtyValue_dispatch _ _ _ T tv hc k1 (Or.inl k2), fromCtyP_via_base S ms _ _ T hc rfl (Or.inl rfl)]
+      exact er_mapRes_congr _ (fromCtyTuple_tie_marked S ms etys cs T.base hd hcv (hwf etys cs rfl rfl))
+  | smap ks cs =>
+    cases ty <;> simp [kindOK] at hk
+    · rename_i ety
+      obtain ⟨k1, k2⟩ := (pushed_known ms, Ty.map ety, Payload.smap ks cs)
+      rw [fromCtyValue_dispatch _ _ _ T tv hc k1 (Or.inl k2), fromCtyP_via_base S ms _ _ T hc rfl (Or.inl rfl)]
+      exact er_mapRes_congr _ (fromCtyMap_tie S ms ety (.smap ks cs) T.base _ hd hcv (Or.inr ⟨ks, cs, rfl⟩))
+    · rename_i names atys opt
+      subst hk
+      obtain ⟨k1, k2⟩ := (pushed_known ms, Ty.object ks atys opt, Payload.smap ks cs)
+      rw [fromCtyValue_dispatch _ _ _ T tv hc k1 (Or.inl k2), fromCtyP_via_base S ms _ _ T hc rfl (Or.inl rfl)]
+      exact er_mapRes_congr _ (fromCtyObject_tie_marked S ms ks atys opt cs T.base hd hcv)
+  | sset ids cs =>
+    cases ty <;> simp [kindOK] at hk
+    rename_i ety
+    obtain ⟨k1, k2⟩ := (pushed_known ms, Ty.set ety, Payload.sset ids cs)
+    rw [fromCtyValue_dispatch _ _ _ T tv hc k1 (Or.inl k2), fromCtyP_via_base S ms _ _ T hc rfl (Or.inl rfl)]
+    exact er_mapRes_congr _ (fromCtySet_tie S ms ety ids cs T.base _ hd hcv)
+  | _ => cases ty <;> simp [kindOK] at hk
 
 /-! ### statements about the translated text itself, for ANY recursive decoder -/
 
